@@ -48,7 +48,7 @@ type symEval struct {
 	impl  map[types.Object]*implBinding
 	over  map[types.Object]string // temporary term overrides (refinement idiom, inlined parameters)
 	depth int
-	ret   types.Object // pseudo-variable that collects the function's return expressions
+	ret   types.Object                 // pseudo-variable that collects the function's return expressions
 	lits  map[*ast.CompositeLit]symDef // enclosing clause of every composite literal
 }
 
@@ -318,10 +318,29 @@ func (se *symEval) inlineHelper(callee *types.Func, args []string) (string, bool
 
 func (se *symEval) inlineHelperShapes(callee *types.Func, args []string) (string, bool) {
 	fd := se.c.funcDecl(callee)
-	if fd == nil || fd.Body == nil || len(fd.Body.List) == 0 || len(fd.Body.List) > 3 {
+	if fd == nil || fd.Body == nil || len(fd.Body.List) == 0 {
 		return "", false
 	}
 	p := se.c.declPkg[fd]
+	// local definitions (typ, err := gen.irType(old)) are resolved through the evaluator's
+	// definitions, and `if err != nil { return …, err }` is not part of the value computed
+	var list []ast.Stmt
+	for _, st := range fd.Body.List {
+		switch x := st.(type) {
+		case *ast.AssignStmt:
+			if x.Tok == token.DEFINE {
+				continue
+			}
+		case *ast.IfStmt:
+			if c := strings.ReplaceAll(exprString(x.Cond), " ", ""); c == "err!=nil" && x.Init == nil && returnsError(p.TypesInfo, x.Body.List) {
+				continue
+			}
+		}
+		list = append(list, st)
+	}
+	if len(list) == 0 || len(list) > 3 {
+		return "", false
+	}
 	sub := newSymEval(se.c, p, fd, se.side)
 	sub.depth = se.depth
 	i := 0
@@ -336,7 +355,6 @@ func (se *symEval) inlineHelperShapes(callee *types.Func, args []string) (string
 		}
 	}
 	sub.old = nil
-	list := fd.Body.List
 	last, ok := list[len(list)-1].(*ast.ReturnStmt)
 	if !ok || len(last.Results) < 1 {
 		return "", false
